@@ -52,3 +52,30 @@ REPLAYS = {
     "queuearc-late-bounce": queuearc_late_bounce,
     "queuearc-tiny-push": queuearc_tiny_push,      # repaired: kept so that a regression can be recognised
 }
+
+
+def node_data_input_dict_runtimeerror():
+    """a node holding input data cannot be overridden without re-reading a file (tests/test_nodes.py pins the RuntimeError)"""
+    from wsimod.nodes.nodes import Node
+    n = Node(name="n", data_input_dict={("temperature", 1): 15})
+    try:
+        n.apply_overrides({})
+        return False, "apply_overrides({}) returned normally"
+    except RuntimeError as ex:
+        return True, f"Node with a data_input_dict: apply_overrides({{}}) raises RuntimeError({ex})"
+
+
+def surface_deposition_not_enabled_by_override():
+    from wsimod.nodes.land import Surface
+    with_load = Surface(pollutant_load={"phosphate": 1.0})
+    s = Surface()
+    s.apply_overrides({"pollutant_load": {"phosphate": 1.0}})
+    names = lambda x: [f.__name__ for f in x.inflows]
+    return (names(s) != names(with_load),
+            f"constructed with a load: inflows {names(with_load)}; constructed without and overridden with the same load: inflows {names(s)}")
+
+
+REPLAYS.update({
+    "node-data-input-dict-runtimeerror": node_data_input_dict_runtimeerror,
+    "surface-deposition-not-enabled-by-override": surface_deposition_not_enabled_by_override,
+})
